@@ -99,7 +99,8 @@ class C20(core.Check):
                                        'vocab:no-registers', 'vocab:predefined', 'vocab:no-predefined', 'mnemonic:contains-dot',
                                        'mnemonic:prefix-of-another', 'mnemonic:single-letter', 'vocab:underscore-at-edge',
                                        'description:special-characters', 'register:looks-like-a-numeric-literal', 'vocab:enumeration-keys',
-                                       'vocab:macro-is-dotted-prefix-of-instruction', 'verbosity:1', 'verbosity:2', 'verbosity:3']}
+                                       'vocab:macro-is-dotted-prefix-of-instruction', 'verbosity:1', 'verbosity:2', 'verbosity:3',
+                                       'regenerated-over-an-earlier-package']}
 
     def __init__(self):
         self.words = 0
@@ -149,7 +150,25 @@ class C20(core.Check):
                 if nv:
                     argv += ['-v'] * nv if rng.random() < 0.5 else ['-' + 'v' * nv]
                     vt = {f'verbosity:{min(nv, 3)}'}
-                yield {'runs': [{'files': {fn: text}, 'dirs': ['out'], 'argv': argv, 'post': 'inspect_extension', 'target': tgt,
+                b64 = {}
+                stale_files = {}
+                if (i + (tgt == 'sublime')) % 3 == 0:
+                    # generating again into a directory that holds an earlier generation (of another vocabulary): what is
+                    # there afterwards is the new package, each file once
+                    lang_ = 'custom_lang' if '-l' in argv else isa['general']['identifier']['name']
+                    if tgt == 'sublime':
+                        import base64, io, zipfile
+                        buf = io.BytesIO()
+                        with zipfile.ZipFile(buf, 'w') as z_:
+                            z_.writestr(lang_ + '.sublime-syntax', '%YAML 1.2\n---\nname: stale\nscope: source.stale\ncontexts:\n  main: []\n')
+                            z_.writestr(lang_ + '.sublime-color-scheme', '{"name": "stale"}')
+                        b64['out/' + lang_ + '.sublime-package'] = base64.b64encode(buf.getvalue()).decode()
+                    else:
+                        stale_ = '{"stale": true, "pad": "' + 'x' * 30000 + '"}\n'
+                        for rel_ in ('package.json', 'syntaxes/tmGrammar.json', 'snippets.json', 'language-configuration.json'):
+                            stale_files['out/extensions/' + lang_ + '/' + rel_] = stale_
+                    vt = vt | {'regenerated-over-an-earlier-package'}
+                yield {'runs': [{'files': dict(stale_files, **{fn: text}), 'files_b64': b64, 'dirs': ['out'], 'argv': argv, 'post': 'inspect_extension', 'target': tgt,
                                  'ext_dir': 'out', 'collect_all': False, 'hashseed': str(i % 4), 'probes': []}],
                        'meta': {'mns': mns, 'macros': macros, 'regs': regs, 'pre': pre, 'target': tgt, 'enum_keys': enum_keys},
                        'tags': sorted(tags | vt | {'target:' + tgt})}
@@ -195,6 +214,8 @@ class C20(core.Check):
             if not po.get('zip_ok'):
                 vs.append(core.violated('zip-invalid', {'err': po.get('zip_err')}))
             mem = po.get('members') or []
+            if len(mem) != len(set(mem)):
+                vs.append(core.violated('zip-member-stored-more-than-once', {'members': mem}, buckets=tags, nt=nt))
             if not any(x.endswith('.sublime-syntax') for x in mem):
                 vs.append(core.violated('zip-member-missing/sublime-syntax', {'members': mem}))
         else:
